@@ -868,7 +868,7 @@ CHECKS["C14"] = {
     "technique": "runtime monitoring under enumerated faults: scripted io::Read/Write (fragmentation, Interrupted, truncation) vs a framing reference model, with allocation monitor",
     "rule": "streams: 225 streams of <= 20 bytes (frames with decodable, undecodable and zero-length payloads, hostile prefixes) x every truncation point x compositions of the stream length into read sizes (all 2^(L-1), strided above the per-stream cap) x max_len in {64,3,2}; Interrupted inserted 0/1/2 times before each read (exhaustive for <= 10 reads); random long streams (<= 24 frames, payloads to 6 KiB and now and then up to ~90 KiB, delivered in pieces of 1-13 bytes or around 512 / 4096 / 8192 / 16384 bytes) with random scripts; half of the readers / writers are constructed with a caller-supplied buffer holding stale bytes; writer sequences (incl. values that fail to encode or exceed max_len) into a scripted short-write/Interrupted sink, read back. distinct = enumerated (stream, script, max_len) triples + hashed random streams; one writer sequence in 50 mixes values of 60 KiB-1.2 MiB with small ones under limits 100 / 512 KiB / 2 MiB",
     "level_text": "Faults (short reads, interrupted calls, truncation at every byte, oversized prefixes) are enumerated rather than sampled for all small streams, and the expected result sequence comes from an independent framing model over the stream bytes alone; the reader's buffer length, largest read request and peak allocation are measured against max_len.",
-    "level_note": "Trusted: c14::refframe and refcbor for decoding payloads as Vec<u16>. 4 GiB frames (the writer's `as u32`) are out of reach. After InvalidLen the stream is desynchronised by design; the model stops there.",
+    "level_note": "Trusted: c14::refframe and refcbor for decoding payloads as Vec<u16>. A value of 2^32+100 payload bytes through the writer (the `as u32` of the frame length) is exercised in the thorough tier only, and only with >= 28 GiB of free memory; real 4 GiB frames through the reader are out of reach. After InvalidLen the stream is desynchronised by design; the model stops there.",
     "assumptions": COMMON_ASSUMPTIONS,
 }
 
